@@ -309,3 +309,97 @@ func vh_C07_server_loop_worker() {
 	vAssert(err == nil, "Server: the worker survives every dispatched packet")
 	vAssert(len(svr.pktMgr.responses) == got, "Server: one response per dispatched packet")
 }
+
+// ---- type byte replaced: a valid handle-carrying frame whose type byte is
+// arbitrary either is refused by the decoder or is the well-formed request of
+// the new type - and is then served as that: the handler object behind the
+// handle is only ever used in the way its kind and the request's type allow
+// (added after seeded change C07-d)
+
+func vTypeMutatedStream() []byte {
+	id := vNondetU32()
+	var m interface{ MarshalBinary() ([]byte, error) }
+	switch vChoice(4) {
+	case 0:
+		m = &sshFxpWritePacket{ID: id, Handle: "1", Offset: 1, Length: 2, Data: []byte{7, 8}}
+	case 1:
+		m = &sshFxpReadPacket{ID: id, Handle: "1", Offset: 1, Len: 2}
+	case 2:
+		m = &sshFxpReaddirPacket{ID: id, Handle: "1"}
+	case 3:
+		m = &sshFxpFstatPacket{ID: id, Handle: "1"}
+	}
+	b, err := m.MarshalBinary()
+	vAssert(err == nil, "marshals")
+	n := len(b) - 4
+	b[0], b[1], b[2], b[3] = byte(n>>24), byte(n>>16), byte(n>>8), byte(n)
+	b[4] = vNondetU8()
+	return b
+}
+
+func vh_C07_reqserver_type_mutated() {
+	vHErrKinds = 0
+	vHReset()
+	data := vTypeMutatedStream()
+	want, _ := vWellFormedPrefix(data)
+	vConsumed(len(data))
+	rs := vNewRequestServer(Handlers{vH{}, vH{}, vH{}, vH{}}, "/")
+	kind := vChoice(4)
+	_, o := vOpenRequestOfKind(rs, kind)
+	rs.serverConn.conn.Reader = &vReader{data: data}
+	ch := make(chan orderedRequest, 16)
+	rs.serveLoop(ch)
+	got := len(ch)
+	vAssert(got == want, "exactly the well-formed prefix is dispatched")
+	rs.pktMgr.requests = make(chan orderedPacket, 16)
+	rs.pktMgr.responses = make(chan orderedPacket, 16)
+	var pkts []orderedRequest
+	for p := range ch {
+		pkts = append(pkts, p)
+	}
+	ch2 := make(chan orderedRequest, 16)
+	for _, p := range pkts {
+		rs.pktMgr.incomingPacket(p)
+		ch2 <- p
+	}
+	close(ch2)
+	err := rs.packetWorker(context.Background(), ch2)
+	vAssert(err == nil, "the worker survives")
+	isRead, isWrite, isDir := false, false, false
+	for _, p := range pkts {
+		switch p.requestPacket.(type) {
+		case *sshFxpReadPacket:
+			isRead = true
+		case *sshFxpWritePacket:
+			isWrite = true
+		case *sshFxpReaddirPacket:
+			isDir = true
+		}
+	}
+	vAssert(o.reads == 0 || (isRead && (kind == 0 || kind == 2)), "the object is read only by a READ on a readable handle")
+	vAssert(o.writes == 0 || (isWrite && (kind == 1 || kind == 2)), "the object is written only by a WRITE on a writable handle")
+	vAssert(o.lists == 0 || (isDir && kind == 3), "the object is listed only by a READDIR on a directory handle")
+	vAssert(len(rs.pktMgr.responses) == got, "one response per dispatched packet")
+	if got == 1 {
+		r := (<-rs.pktMgr.responses).(orderedResponse)
+		b := vRespBytes(r.responsePacket)
+		t := b[4]
+		switch {
+		case isRead:
+			vAssert(t == sshFxpData || t == sshFxpStatus, "READ is answered with DATA or STATUS")
+			if kind == 1 || kind == 3 {
+				c, _ := vStatusCode(b)
+				vAssert(t == sshFxpStatus && c != sshFxOk && c != sshFxEOF, "READ on a handle that cannot be read fails")
+			}
+		case isWrite:
+			vAssert(t == sshFxpStatus, "WRITE is answered with STATUS")
+			if kind == 0 || kind == 3 {
+				c, _ := vStatusCode(b)
+				vAssert(c != sshFxOk, "WRITE on a handle that cannot be written fails")
+			}
+		case isDir:
+			vAssert(t == sshFxpName || t == sshFxpStatus, "READDIR is answered with NAME or STATUS")
+		}
+	}
+	vEmit("got", got)
+}
